@@ -6,6 +6,7 @@ from . import gen
 
 REG_RECIPES = [['D', n, 32, False, True] for n in gen.REGS32] + [['D', 'init_' + n, 32, True, True] for n in gen.REGS32]
 FRESH = [['D', n, 32, False, False] for n in ('a', 'b', 'c', 'lbl_1', 'x9')]
+LOOKALIKE = [['D', n, 32, False, False] for n in ('eax', 'ecx', 'init_eax')]     # same name and size as a register, other flags
 
 def r_int(v, size=32):
     return ['I', 'uint%d' % size, v & ((1 << size) - 1)]
@@ -54,11 +55,26 @@ def tree(rng, depth, size=32):
                 a = ['O', '+', [a, tree(rng, depth - 2)]]
             nc = rng.choice(['<<', '>>', 'a>>', '<<<', '>>>', '==', '-'])
             args += [['O', nc, [a, b]], ['O', nc, [b, a]]]
-        elif y < 0.30:
+        elif y < 0.36:
+            # a register, an identifier that only LOOKS like it (same name and size, not a register), the register again
+            r = rng.choice([x for x in REG_RECIPES if x[1] in ('eax', 'ecx', 'init_eax')])
+            u = [x for x in LOOKALIKE if x[1] == r[1]][0]
+            wrap = rng.choice(['id', 'mem', 'slice'])
+            def mk(x):
+                if wrap == 'mem':
+                    return ['M', x, 32, None, False]
+                return x
+            args += rng.choice([[mk(r), mk(u), mk(r)], [mk(u), mk(r), mk(u)], [mk(r), mk(r), mk(u)]])
+        elif y < 0.44:
+            # sibling conditions that share the condition and one branch
+            c0 = rng.choice(REG_RECIPES + FRESH)
+            s1, s2, s3 = r_int(rng.choice(CONSTS)), r_int(rng.choice(CONSTS)), rng.choice(REG_RECIPES)
+            args += rng.choice([[['?', c0, s1, s2], ['?', c0, s1, s3]], [['?', c0, s2, s1], ['?', c0, s3, s1]], [['?', c0, s1, s3], ['?', c0, s1, s2]]])
+        elif y < 0.50:
             # a term and its negation as siblings (sort keys must tell them apart)
             a = rng.choice(REG_RECIPES + FRESH) if rng.random() < 0.6 else tree(rng, depth - 2)
             args += rng.choice([[a, ['O', '-', [a]]], [['O', '-', [a]], a]])
-        elif y < 0.42 and op in ('|', '&', '^', '+'):
+        elif y < 0.62 and op in ('|', '&', '^', '+'):
             # memory operands that differ only by their segment, plus a duplicate
             addr = rng.choice(REG_RECIPES) if rng.random() < 0.6 else ['O', '+', [rng.choice(REG_RECIPES), r_int(rng.choice([4, 8]))]]
             segs = [['D', sname, 16, False, True] for sname in rng.sample(['ds', 'es', 'ss', 'fs'], 2)]
